@@ -516,6 +516,21 @@ func TestVerif_C02_Random(t *testing.T) {
 	m.Require("basic_header_form_2", 100)
 	m.Require("basic_header_form_3", 100)
 	m.Require("interleaved_rounds", 0)
+	// many chunk streams on one connection: 600..2000 distinct ids (a relay multiplexing hundreds of streams), each started with a
+	// type-0 header and revisited later with type 1/2/3 headers that depend on what the reader remembers of that stream
+	nmany := m.N(4, 40)
+	m.Require("traces_with_600_or_more_chunk_streams", int64(nmany))
+	mon.Parallel(nmany, func(w, i int) {
+		r := m.Rand("manystreams", i)
+		ns := r.Range(600, 2000)
+		wire, desc := verifRandomTraceN(r, m, ns, 4*ns)
+		m.Case()
+		m.Count("traces_with_600_or_more_chunk_streams", 1)
+		verifCountWire(m, wire)
+		rep := map[string]interface{}{"case": i, "shape": "manystreams " + desc, "chunk_streams": ns}
+		wire.describe = fmt.Sprintf("many-streams trace #%d (%d chunk streams) %s", i, ns, desc)
+		m.Guard("rtmp.ReadMessage", nil, func() { verifJudge(m, wire, vnet.PickSeg(r), rep, ":manystreams") })
+	})
 	mon.Parallel(n, func(w, i int) {
 		r := m.Rand("rand", i)
 		wire, desc := verifRandomTrace(r, m)
@@ -532,9 +547,17 @@ func TestVerif_C02_Random(t *testing.T) {
 }
 
 func verifRandomTrace(r *vrand.Rand, m *mon.M) (verifWire, string) {
+	return verifRandomTraceN(r, m, 0, 0)
+}
+
+// verifRandomTraceN: forceStreams/forceMsgs > 0 override the PRNG's choice of how many chunk streams / messages.
+func verifRandomTraceN(r *vrand.Rand, m *mon.M, forceStreams, forceMsgs int) (verifWire, string) {
 	c := refrtmp.NewChunker()
 	var w verifWire
 	nstreams := r.Range(1, 40)
+	if forceStreams > 0 {
+		nstreams = forceStreams
+	}
 	ids := make([]uint32, nstreams)
 	forms := map[uint32]int{}
 	for k := range ids {
@@ -572,6 +595,9 @@ func verifRandomTrace(r *vrand.Rand, m *mon.M) (verifWire, string) {
 	nmsg := r.Range(1, 200)
 	if r.Chance(1, 2) {
 		nmsg = r.Range(1, 20)
+	}
+	if forceMsgs > 0 {
+		nmsg = forceMsgs
 	}
 	sizes := map[uint32]bool{128: true}
 	ext := false
